@@ -62,7 +62,18 @@ def limits_gate_control(prog: Program, rep) -> None:
                     par = pm.get(id(n))
                     while par is not None and not isinstance(par, ast.stmt):
                         par = pm.get(id(par))
-                    ok = ok and isinstance(par, ast.If) and any(m is n for m in ast.walk(par.test))
+                    in_test = isinstance(par, ast.If) and any(m is n for m in ast.walk(par.test))
+                    if not in_test and isinstance(par, ast.Assign) and len(par.targets) == 1 and isinstance(par.targets[0], ast.Name) and par.value is n:
+                        # a temporary: every use of it must be inside an if-test
+                        nm = par.targets[0].id
+                        uses = [m for m in own_nodes(fi.node) if isinstance(m, ast.Name) and m.id == nm and isinstance(m.ctx, ast.Load)]
+                        def _in_if_test(m):
+                            q = pm.get(id(m))
+                            while q is not None and not isinstance(q, ast.stmt):
+                                q = pm.get(id(q))
+                            return isinstance(q, ast.If) and any(z is m for z in ast.walk(q.test))
+                        in_test = bool(uses) and all(_in_if_test(m) for m in uses)
+                    ok = ok and in_test
                     rep.check(ok, "limit-only-gates-control", fi.qualname, short(par) if par is not None else U(n),
                               "params.iteration_limit is read only inside a termination test", fi.loc(n))
                 else:
